@@ -123,13 +123,14 @@ class Leaf:
 # ------------------------------------------------------------------------------------------------
 # operations.  A node knows: C++ expression, NumPy evaluation, run-time argument values, RPN token.
 # Argument kinds: ct (compile-time constant), cl (clipped: run-time value with compile-time maximum),
-# rt (std::array<int,N>: length static, values run time), rtv (std::vector<int>), rts (run-time int), none
+# rt (std::array<int,N>: length static, values run time), rtv (std::vector<int>), sv (nmtools_static_vector<int,N>: length run time,
+# at most the capacity N), rts (run-time int), none
 # ------------------------------------------------------------------------------------------------
 
 class Node:
     is_leaf = False
 
-    def __init__(self, name, kids, akind='', ct=None, N=None, rfun=None, npf=None, cxx=None, extra='', clv=None):
+    def __init__(self, name, kids, akind='', ct=None, N=None, rfun=None, npf=None, cxx=None, extra='', clv=None, mextra=None):
         self.name = name; self.kids = kids; self.akind = akind
         self.ct = ct            # compile-time value(s) (also the maxima for 'cl')
         self.N = N              # static length of an rt argument
@@ -138,12 +139,14 @@ class Node:
         self.cxx = cxx          # (list of kid expressions, run-time argument expression) -> C++ expression
         self.extra = extra      # extra token text (keepdims ...)
         self.clv = clv          # run-time values of a clipped argument
+        self.mextra = mextra    # `extra` as the Lean driver needs it (more explicit than the readable text), when different
 
     def has_rarg(self):
         return self.rfun is not None
 
-    def token(self):
-        """RPN token read by lean/NmVerif/Driver/C11.lean: name.argkind.fields (lists comma separated)"""
+    def token(self, model=False):
+        """RPN token read by lean/NmVerif/Driver/C11.lean: name.argkind.fields (lists comma separated); model=False: the
+        same token as part of the readable program text (kept stable: it is written into the generated TUs)"""
         t = self.name
         k = self.akind
         if k == 'ct':
@@ -156,10 +159,13 @@ class Node:
             t += '.cl.%s.%s' % (fmt(self.ct), fmt(self.clv))
         elif k == 'rt':
             t += '.rt.%d' % self.N
+        elif k == 'sv':
+            t += '.sv.%d' % self.N
         elif k and k != 'pat':
             t += '.' + k
-        if self.extra:
-            t += '.' + self.extra
+        extra = self.mextra if (model and self.mextra is not None) else self.extra
+        if extra:
+            t += '.' + extra
         return t
 
     def text(self):
@@ -172,6 +178,8 @@ def rarg_expr(akind, N, slot):
         return 'c11::to_arr<%d>(R[%d])' % (N, slot)
     if akind == 'rtv':
         return 'c11::to_vec(R[%d])' % slot
+    if akind == 'sv':
+        return 'c11::to_sv<%d>(R[%d])' % (N, slot)
     if akind in ('rts', 'slr'):
         return '(int)R[%d][0]' % slot
     if akind == 'cl':
@@ -459,7 +467,7 @@ def op_multiply_scalar(k, v):
 
 
 
-# view kinds without a Lean transfer function: static knowledge vs run-time objects and NumPy only ------------------------
+# third group (transfer functions in lean/NmVerif/StaticGen.lean): generating / selecting / pooling / windowing views ----------
 
 def op_eye(k, v):
     # no array operand: the leaf only supplies run-time numbers (its instance shape); kinds of N, M: constant / run-time
@@ -512,7 +520,11 @@ def op_resize(k, v):
     r = len(v)
     t = [3, 4, 2, 2][:r]
     # the element map of view::resize (nearest neighbour) is not NumPy's: only the shape is the reference here
-    return [Node('resize', [k], 'ct', ct=tuple(t), npf=lambda a, _, t=t: np.zeros(t, dtype=np.int64), cxx=lambda e, _, t=t: 'view::resize(%s, %s)' % (e[0], ct_tuple(t))),
+    def same_rank(a, t):
+        if a.ndim != len(t):
+            raise ValueError('resize keeps the rank')
+        return np.zeros(t, dtype=np.int64)
+    return [Node('resize', [k], 'ct', ct=tuple(t), npf=lambda a, _, t=t: same_rank(a[0], t), cxx=lambda e, _, t=t: 'view::resize(%s, %s)' % (e[0], ct_tuple(t))),
             Node('resize', [k], 'rt', N=r, rfun=lambda s, r=r: [x + 1 for x in s[0]] if len(s[0]) == r else None,
                  npf=lambda a, x: np.zeros(x, dtype=np.int64), cxx=lambda e, x: 'view::resize(%s, %s)' % (e[0], x)),
             Node('resize', [k], 'rtv', rfun=lambda s: [x + 2 for x in s[0]], npf=lambda a, x: np.zeros(x, dtype=np.int64),
@@ -526,7 +538,7 @@ def _swv(a, w, ax):
 def op_sliding_window(k, v):
     r = len(v)
     full = tuple([1] * (r - 1) + [2])
-    return [Node('sliding_window', [k], 'cts', ct=2, extra='axc', npf=lambda a, _, r=r: _swv(a[0], 2, r - 1),
+    return [Node('sliding_window', [k], 'cts', ct=2, extra='axc', mextra='axc%d' % (r - 1), npf=lambda a, _, r=r: _swv(a[0], 2, r - 1),
                  cxx=lambda e, _, r=r: 'view::sliding_window(%s, 2_ct, %d_ct)' % (e[0], r - 1)),
             Node('sliding_window', [k], 'ct', ct=full, extra='axn', npf=lambda a, _, full=full: _swv(a[0], full, None),
                  cxx=lambda e, _, full=full: 'view::sliding_window(%s, %s)' % (e[0], ct_tuple(full))),
@@ -549,6 +561,31 @@ def op_outer(k1, k2, v1, v2):
     return [Node('outer_add', [k1, k2], npf=lambda a, _: np.add.outer(a[0], a[1]), cxx=lambda e, _: 'view::outer_add(%s, %s)' % (e[0], e[1]))]
 
 
+# bounded-container arguments (nmtools_static_vector<int,CAP>): the length is a run-time value BELOW or AT the capacity; the
+# bounded_dim / bounded_size of the view must come from the capacity.  Reps / targets are longer than the operand's rank.
+def op_bounded_args(k, v):
+    r = len(v); out = []
+
+    def both(name, cap_lo, cap_at, vals_lo, vals_at, npf, call):
+        # (capacity above the run-time length, capacity equal to it)
+        for tag, cap, vals in (('below', cap_lo, vals_lo), ('at', cap_at, vals_at)):
+            out.append(Node(name, [k], 'sv', N=cap, extra=tag, rfun=lambda s, vals=vals, r=r: vals(s[0]) if len(s[0]) == r else None,
+                            npf=npf, cxx=lambda e, x, call=call: call % (e[0], x)))
+    both('tile', r + 2, r + 1, lambda s: [2] * (len(s) + 1), lambda s: [2] * (len(s) + 1),
+         lambda a, x: np.tile(a[0], x), 'view::tile(%s, %s)')
+    both('tile', r + 3, r + 2, lambda s: [1, 2] + [1] * len(s), lambda s: [1, 2] + [1] * len(s),
+         lambda a, x: np.tile(a[0], x), 'view::tile(%s, %s)')
+    both('reshape', 4, 3, lambda s: [1, prod(s), 1], lambda s: [1, prod(s), 1],
+         lambda a, x: np.reshape(a[0], x), 'view::reshape(%s, %s)')
+    both('broadcast_to', r + 3, r + 2, lambda s: [2, 1] + list(s), lambda s: [2, 1] + list(s),
+         lambda a, x: np.broadcast_to(a[0], x), 'view::broadcast_to(%s, %s)')
+    both('transpose', r + 1, r, lambda s: _perm(len(s)), lambda s: _perm(len(s)),
+         lambda a, x: np.transpose(a[0], x), 'view::transpose(%s, %s)')
+    both('pad', 2 * r + 1, 2 * r, lambda s: [1] + [0] * (2 * len(s) - 2) + [2], lambda s: [1] + [0] * (2 * len(s) - 2) + [2],
+         lambda a, x: np.pad(a[0], list(zip(x[:len(x) // 2], x[len(x) // 2:]))), 'view::pad(%s, %s)')
+    return out
+
+
 GEN_UNARY = [op_tril, op_pool2d, op_resize, op_sliding_window, op_compress]
 GEN_NULLARY = [op_eye, op_tri]
 GEN_BINARY = [op_outer]
@@ -559,7 +596,9 @@ MODELLED_BINARY = [op_add, op_concatenate]
 EXTRA_UNARY = [op_repeat, op_pad, op_cumsum, op_roll, op_flip, op_moveaxis, op_take, op_slice, op_atleast_3d, op_multiply_scalar]
 EXTRA_BINARY = [op_where, op_matmul]
 MODELLED = {'transpose', 'reshape', 'flatten', 'broadcast_to', 'tile', 'expand_dims', 'squeeze', 'sum', 'negative', 'add', 'concatenate',
-            'repeat', 'pad', 'cumsum', 'roll', 'flip', 'moveaxis', 'take', 'slice', 'atleast_3d', 'mulscalar', 'where', 'matmul', 'bcast3'}
+            'repeat', 'pad', 'cumsum', 'roll', 'flip', 'moveaxis', 'take', 'slice', 'atleast_3d', 'mulscalar', 'where', 'matmul', 'bcast3',
+            # third group (transfer functions in StaticGen.lean)
+            'eye', 'tri', 'tril', 'triu', 'max_pool2d', 'avg_pool2d', 'resize', 'sliding_window', 'compress', 'outer_add'}
 
 # header of each view function; a TU includes only what its programs use (compile time)
 HEADER_OF = {'transpose': 'transpose', 'reshape': 'reshape', 'flatten': 'flatten', 'broadcast_to': 'broadcast_to', 'tile': 'tile',
@@ -582,6 +621,7 @@ class Program:
         self.nodes = []        # post order
         self._walk(root)
         self.id = None
+        self.group = ''         # '' = first group of TUs, 'x' = second group
         self.depth = self._depth(root)
 
     def _walk(self, n):
@@ -609,7 +649,7 @@ class Program:
                 toks.append(n.token()); return
             for k in n.kids:
                 rec(k)
-            toks.append(n.token())
+            toks.append(n.token(model=True))
         rec(self.root)
         return ';'.join(toks)
 
@@ -829,6 +869,25 @@ def build_programs(tier):
             seen.add(p.text()); progs.append(p); cnt -= 1
     skip = load_skip()
     progs = [p for p in progs if p.text() not in skip]
+    # second group of translation units (own TUs, so that the first group stays cached): bounded-container arguments, and outer
+    # products whose size is a compile-time constant although the shape is not (fixed buffers of run-time shape)
+    extra = []
+
+    def addx(n):
+        if valid(n):
+            p = Program(n); p.group = 'x'
+            if p.text() not in skip and p.text() not in seen:
+                seen.add(p.text()); extra.append(p)
+    for kind in (('cs', 'cl', 'fd', 'bd', 'dy') if tier == 'quick' else kinds):
+        for n in unary_variants([op_bounded_args], Leaf(kind, (2, 3))):
+            addx(n)
+        if tier != 'quick':
+            for n in unary_variants([op_bounded_args], Leaf(kind, (3,))):
+                addx(n)
+    for k1, k2 in (('fdf', 'fdf'), ('fdf', 'cs'), ('fdh', 'fdf'), ('fdf', 'fdh'), ('fdf', 'dy'), ('cs', 'fdf')):
+        for n in binary_variants([op_outer], Leaf(k1, (2, 3)), Leaf(k2, (2,))):
+            addx(n)
+    progs += extra
     for i, p in enumerate(progs):
         p.id = i
     return progs
@@ -855,6 +914,15 @@ def tu_name(tier, k):
 def write_tus(progs, tier, outdir):
     """returns list of (harness name, source path, [program ids])"""
     os.makedirs(outdir, exist_ok=True)
+    res = []
+    for group in ('', 'x'):
+        res += _write_group([p for p in progs if p.group == group], tier, outdir, group)
+    return res
+
+
+def _write_group(progs, tier, outdir, group):
+    if not progs:
+        return []
     per = PER_TU[tier]
     # heavier (deeper) programs are spread evenly: round-robin after sorting by depth
     order = sorted(progs, key=lambda p: (p.depth, p.id))
@@ -885,11 +953,12 @@ def write_tus(progs, tier, outdir):
         src.append('    }')
         src.append('}')
         text = '\n'.join(src) + '\n'
-        path = os.path.join(outdir, tu_name(tier, k) + '.cpp')
+        name = tu_name(tier, k) if not group else 'g_c11_%s_%s%03d' % (tier, group, k)
+        path = os.path.join(outdir, name + '.cpp')
         if not (os.path.exists(path) and open(path).read() == text):
             with open(path, 'w') as f:
                 f.write(text)
-        res.append((tu_name(tier, k), path, [p.id for p in b]))
+        res.append((name, path, [p.id for p in b]))
     return res
 
 
